@@ -21,6 +21,7 @@ import GfaModel.Levels
 import GfaModel.Partial
 import GfaModel.Groups
 import GfaModel.Captured
+import GfaModel.Edit
 /- Line protocol of the model driver: `op US arg US arg …` → one reply line. -/
 namespace Gfa
 namespace Driver
@@ -312,6 +313,9 @@ def step (d : DState) (cmd : String) (args : List (List Char)) : DState × Strin
     | none => (d, "bad-op")
   | "g.rm", [n] => gres d (G.rm d.g (str n))
   | "g.rename", [a, b] => gres d (G.rename d.g (str a) (str b))
+  | "g.rmtext", [t] => gres d (G.rmText d.g (str t))
+  | "g.settag", [t, tn, new] => gres d (G.setTag d.g (str t) (str tn) (some (str new)))
+  | "g.deltag", [t, tn] => gres d (G.setTag d.g (str t) (str tn) none)
   | "g.obs", [] => (d, "ok " ++ G.obs d.g)
   | "g.cc", [] =>
     (d, "ok " ++ ";".intercalate (sortStrs ((G.components d.g).map (fun c => ",".intercalate (sortStrs c)))))
